@@ -10,6 +10,11 @@ type CheckWhen struct {
 }
 
 func (y CheckWhen) CheckContainerPostConstraints(r ChildRequest, s *Selection) (bool, error) {
+	if meta.IsList(r.Meta) {
+		// the condition of a list is evaluated for each entry (CheckListPostConstraints),
+		// the list node itself has no data to evaluate it on
+		return true, nil
+	}
 	return y.check(s, r.Meta)
 }
 
@@ -17,8 +22,10 @@ func (y CheckWhen) CheckFieldPreConstraints(r *FieldRequest, hnd *ValueHandle) (
 	return y.check(r.Selection, r.Meta)
 }
 
-func (y CheckWhen) CheckListPostConstraints(r ListRequest, child *Selection, key []val.Value) (bool, error) {
-	return y.check(child, r.Meta)
+func (y CheckWhen) CheckListPostConstraints(r ListRequest, child *Selection, key []val.Value) (bool, bool, error) {
+	// there is more to read after an entry whose condition is false
+	visible, err := y.check(child, r.Meta)
+	return true, visible, err
 }
 
 func (y CheckWhen) check(s *Selection, m meta.Meta) (bool, error) {
